@@ -187,6 +187,10 @@ pub enum K {
         actor: usize,
         out: Out,
     },
+    /// `on_run` was CALLED (a plain fn that returns a future runs its synchronous prefix at call time, polled or not)
+    RunCall {
+        actor: usize,
+    },
     RunPoll {
         actor: usize,
         inv: u32,
